@@ -40,7 +40,7 @@ static int tables(const char* file)
 {
     std::ifstream in(file);
     std::string line;
-    long ncase = 0, nspd = 0, nfail = 0, nbad = 0;
+    long ncase = 0, nspd = 0, nfail = 0, nbad = 0, ndrift = 0;
     while (std::getline(in, line)) {
         if (line.empty())
             continue;
@@ -94,15 +94,19 @@ static int tables(const char* file)
                     fail = "x[" + std::to_string(i) + "]=" + std::to_string(x[i]) + " model " +
                            std::to_string((double)frac(t["x"][i]));
             }
-            // the arrays exposed by the accessors after a solve are the factors the model computed
-            for (int i = 0; i < n && fail.empty(); i++)
+            // the arrays exposed by the accessors after a solve are the factors the model computed - this binds the transcription
+            // TridiagAlg.tla to the code, but the property does not demand a particular factor layout: a difference is DRIFT
+            std::string drift;
+            for (int i = 0; i < n && drift.empty(); i++)
                 if (!(fabsl(S.main_diagonal(i) - frac(t["fd"][i])) <= 1e-11L * (1 + fabsl(frac(t["fd"][i])))))
-                    fail = "factor D[" + std::to_string(i) + "]=" + std::to_string(S.main_diagonal(i)) + " model " +
-                           std::to_string((double)frac(t["fd"][i]));
-            for (int i = 0; i < n - 1 && fail.empty(); i++)
+                    drift = "factor D[" + std::to_string(i) + "]=" + std::to_string(S.main_diagonal(i)) + " model " +
+                            std::to_string((double)frac(t["fd"][i]));
+            for (int i = 0; i < n - 1 && drift.empty(); i++)
                 if (!(fabsl(S.sub_diagonal(i) - frac(t["fs"][i])) <= 1e-11L * (1 + fabsl(frac(t["fs"][i])))))
-                    fail = "factor L[" + std::to_string(i) + "]=" + std::to_string(S.sub_diagonal(i)) + " model " +
-                           std::to_string((double)frac(t["fs"][i]));
+                    drift = "factor L[" + std::to_string(i) + "]=" + std::to_string(S.sub_diagonal(i)) + " model " +
+                            std::to_string((double)frac(t["fs"][i]));
+            if (!drift.empty() && fail.empty() && ndrift++ < 3)
+                std::cout << "{\"drift\":true,\"n\":" << n << ",\"what\":\"" << mj::escape(drift) << "\"}\n";
         }
         if (!fail.empty()) {
             nfail++;
@@ -113,7 +117,7 @@ static int tables(const char* file)
         }
     }
     std::cout << "{\"summary\":true,\"cases\":" << ncase << ",\"spd\":" << nspd << ",\"model_bad\":" << nbad
-              << ",\"failed\":" << nfail << "}\n";
+              << ",\"failed\":" << nfail << ",\"factor_drift\":" << ndrift << "}\n";
     return 0;
 }
 
